@@ -72,7 +72,9 @@ def _struct_tt(f):
     for n in f.getGlyphOrder():
         g = glyf[n]
         if g.isComposite():
-            out[n] = {"cs": [], "comps": [c.glyphName for c in g.components]}
+            # a component's 2x2 cannot vary in a variable font: it is part of the structure (offsets are not)
+            out[n] = {"cs": [], "comps": [c.glyphName + "|" + ",".join(str(int(round(v * 16384))) for row in getattr(c, "transform", ((1, 0), (0, 1))) for v in row)
+                                          for c in g.components]}
         elif g.numberOfContours > 0:
             coords, ends, flags = g.getCoordinates(glyf)
             cs, start = [], 0
